@@ -181,7 +181,14 @@ def _replay_file(mod_name, path):
             "violation": jsonable(viol) if viol else None}
 
 
-def run_corpus(mod, active_known, report, jobs=1):
+def corpus_paths(mod):
+    cdir = os.path.join(ROOT, "corpus", mod.ID)
+    if not os.path.isdir(cdir):
+        return []
+    return [os.path.join(cdir, n) for n in sorted(os.listdir(cdir)) if n.endswith(".json")]
+
+
+def run_corpus(mod, active_known, report, jobs=1, outs=None):
     """Replay committed corpus files first (seconds-long tier): fixed-* (reproductions of repaired defects) and
     seed-* / mut-* (shrunk reproductions of deliberate breakages; all must hold on a correct tree), finding-*
     (must reproduce the listed finding)."""
@@ -190,8 +197,9 @@ def run_corpus(mod, active_known, report, jobs=1):
     if not os.path.isdir(cdir):
         return results
     paths = [os.path.join(cdir, n) for n in sorted(os.listdir(cdir)) if n.endswith(".json")]
-    outs = []
-    if jobs > 1 and len(paths) > 3:
+    if outs is not None:
+        pass  # already replayed by the caller's pool
+    elif jobs > 1 and len(paths) > 3:
         ctx = get_context("spawn")
         with ProcessPoolExecutor(max_workers=min(jobs, len(paths)), mp_context=ctx) as pool:
             outs = list(pool.map(_replay_file, [mod.__name__] * len(paths), paths))
@@ -229,7 +237,7 @@ def run_check(mod, tier: str, seed: int, jobs: int, only: str | None, scale: flo
             return 2
 
     report = {"violations": [], "known": {}}
-    corpus = run_corpus(mod, active_known, report, jobs)
+    corpus = None
 
     plan = mod.plan(tier)
     units = []
@@ -256,6 +264,7 @@ def run_check(mod, tier: str, seed: int, jobs: int, only: str | None, scale: flo
 
     mod_name = mod.__name__
     if jobs <= 1 or len(units) <= 1:
+        corpus = run_corpus(mod, active_known, report, jobs)
         for u in units:
             try:
                 res = _run_unit(mod_name, *u)
@@ -269,8 +278,16 @@ def run_check(mod, tier: str, seed: int, jobs: int, only: str | None, scale: flo
             pp["wall_s"] = round(pp["wall_s"] + res["unit_wall_s"], 2)
     else:
         ctx = get_context("spawn")
-        with ProcessPoolExecutor(max_workers=min(jobs, len(units)), mp_context=ctx) as pool:
+        cpaths = corpus_paths(mod)
+        with ProcessPoolExecutor(max_workers=min(jobs, len(units) + len(cpaths)), mp_context=ctx) as pool:
+            # the corpus (seconds-long replay tier) shares the pool with the generated search
+            cfuts = [pool.submit(_replay_file, mod_name, p) for p in cpaths]
             futs = {pool.submit(_run_unit, mod_name, *u): u for u in units}
+            try:
+                corpus = run_corpus(mod, active_known, report, jobs, outs=[f.result() for f in cfuts])
+            except Exception:
+                harness_errors.append("corpus replay:\n" + traceback.format_exc())
+                corpus = {"replayed": 0, "known_reproduced": [], "known_not_reproduced": []}
             for fut in as_completed(futs):
                 try:
                     res = fut.result()
